@@ -412,6 +412,11 @@ func (w *c01World) keyNow() string {
 	num(st.Length)
 	num(st.Alphabet)
 	num(st.Policy)
+	// the model's own policy and alphabet: two histories are the same state only if implementation AND model
+	// agree - an implementation that lost a setting the model still has must not be merged with (and pruned as)
+	// a history in which the setting was never made
+	num(w.m.Policy)
+	num(w.m.Alphabet)
 	str(st.Extra) // fields this harness does not know by name (caches, memo tables): hidden state
 	firstBuf := map[uintptr]int{}
 	firstObj := map[uintptr]int{}
@@ -545,8 +550,11 @@ func c01Ops() []c01Op {
 		})
 	}
 	// --- AddSequence
-	for _, nm := range []string{"a", "b", "c", "a_0001"} {
+	for _, nm := range []string{"a", "b", "c", "a_0001", "p%d"} {
 		for _, kind := range []string{"same", "dupseq", "long"} {
+			if nm == "p%d" && kind != "same" {
+				continue // a name that reads as a format directive: one kind of add is enough
+			}
 			nm, kind := nm, kind
 			add("add:"+nm+":"+kind, true, true, func(w *c01World) {
 				m := &w.m
@@ -1667,6 +1675,9 @@ var c01Inits = []c01Init{
 	{"3x1", true, align.NUCLEOTIDS, rows{{"b", "A"}, {"a", "-"}, {"c", "N"}}},
 	{"dup-name", true, align.NUCLEOTIDS, rows{{"a", "AC"}, {"a_0001", "AC"}}},
 	{"odd-names", true, align.NUCLEOTIDS, rows{{" x.y", "AC"}, {"z;w ", "GT"}}},
+	// a name that reads as a format directive; two names that differ by a trailing vertical tab only (white space
+	// that is neither a blank nor a tab: name cleaning, documented for blanks and tabs, leaves it)
+	{"percent-vtab", true, align.NUCLEOTIDS, rows{{"p%d", "AC"}, {"k\v", "GT"}, {"k", "CA"}}},
 	{"protein", true, align.AMINOACIDS, rows{{"a", "MK"}, {"b", "M-"}}},
 	{"3x5-mid", true, align.NUCLEOTIDS, rows{{"a", "AC-AA"}, {"b", "TC-TC"}, {"c", "GCAGG"}}},
 	{"bag-ragged", false, align.NUCLEOTIDS, rows{{"c", "ATGAAC"}, {"a", "ATG"}, {"b", "A"}}},
